@@ -1387,3 +1387,10 @@ mod test {
         assert_eq!(docstring, "This is the top level package in an AUTOSAR model.");
     }
 }
+
+// verification hook (guarded, inactive in normal builds): in-crate proof harnesses kept outside the repository
+#[cfg(autosar_data_verif)]
+#[allow(missing_docs, dead_code, unused, clippy::all)]
+pub mod verif_harness {
+    include!(concat!(env!("AUTOSAR_DATA_VERIF_DIR"), "/harness/spec_lib.rs"));
+}
